@@ -556,6 +556,113 @@ def check_C14(run):
     return run.finish('fault_enumeration', cov)
 
 
+def check_C08(run):
+    """Concurrent clients: deadlock freedom of the synchronisation skeleton (PearlConc, TLC) and
+    trace validation of real concurrent executions against TraceConc."""
+    import re
+    q = Q(run)
+    run.build()
+    states = trans = 0
+    # design level: the required discipline (requests sent after the storage lock is released) has no deadlock
+    for name, consts in [('conc-3x2', dict(Clients='{1, 2, 3}', Cap='1', OpsPerClient='2', SendUnderLock='FALSE')),
+                         ('conc-4x2', dict(Clients='{1, 2, 3, 4}', Cap='2', OpsPerClient='2' if q else '3', SendUnderLock='FALSE'))]:
+        r = run.tlc('PearlConc', store.cfg_text('CSpec', consts, ['NoDeadlock', 'LockOK']), name, workers=4, timeout=1800)
+        states += r['distinct']
+        trans += r['generated']
+        run.log('TLC %s: %d distinct states, ok=%s' % (name, r['distinct'], r['ok']))
+        if not r['ok']:
+            ex = run.tlc_error_excerpt(r)
+            if any('violated' in e for e in r['errors']):
+                run.violation('C08', dict(kind='tlc-counterexample', config=name, text=ex), 'TLC: deadlock in the synchronisation design (%s)\n%s' % (name, ex[:2500]))
+            else:
+                print(ex[:3000])
+                raise ToolError('TLC failed in %s' % name)
+    # code level
+    runs = [
+        dict(name='mt-8', clients=8, ops=60 if q else 400, keys=10, cfg=dict(rt='mt', ks=8, bloom='small', group=2)),
+        dict(name='ct-32', clients=32, ops=20 if q else 100, keys=12, cfg=dict(rt='ct', ks=8, bloom='small', group=3)),
+        dict(name='mt-rot-64', clients=64, ops=12 if q else 60, keys=15, cfg=dict(rt='mt', ks=8, bloom='odd', group=2, max_recs=40)),
+        dict(name='ct-rot-16', clients=16, ops=30 if q else 120, keys=6, cfg=dict(rt='ct', ks=8, bloom='off', group=2, max_recs=25)),
+        dict(name='ct-1100', clients=1100, ops=2, keys=20, cfg=dict(rt='ct', ks=8, bloom='off', group=8, max_recs=5), deadline=45),
+        dict(name='mt-3000', clients=3000, ops=1 if q else 3, keys=20, cfg=dict(rt='mt', ks=8, bloom='off', group=8, max_recs=200), deadline=60),
+    ]
+    procs = []
+    for i, rn in enumerate(runs):
+        h = dict(rn['cfg'], seed=run.seed * 10 + i, wait=True)
+        out = os.path.join(run.work, 'conc-%s.out' % rn['name'])
+        tr = os.path.join(run.work, 'conc-%s.ndjson' % rn['name'])
+        cmd = [os.path.join(BIN, 'conc'), '--cfg', json.dumps(h), '--clients', str(rn['clients']), '--ops', str(rn['ops']),
+               '--keys', str(rn['keys']), '--out', tr, '--sessions', '2', '--deadline-s', str(rn.get('deadline', 90))]
+        procs.append((subprocess.Popen(cmd, stdout=open(out, 'w'), stderr=open(out + '.err', 'w')), out, tr, rn, h))
+    total_ops = events = traces = 0
+    for p, out, tr, rn, h in procs:
+        rc = p.wait()
+        ok = False
+        for line in open(out, errors='replace'):
+            if line.startswith('MISMATCH '):
+                rec = json.loads(line[9:])
+                m = rec['mismatches'][0]
+                facts = dict(kind=m['kind'], rt=h['rt'], clients=rn['clients'])
+                text = 'concurrent run %s (%d clients, %s): %s: %s' % (rn['name'], rn['clients'], h['rt'], m['kind'], str(m['got'])[:300])
+                kf = match_known('C08', facts)
+                if kf:
+                    line2 = 'KNOWN-FINDING: property=C08 %s: %s' % (kf.get('id', ''), kf.get('what', ''))
+                    if line2 not in run.known:
+                        run.known.append(line2)
+                else:
+                    run.violation('C08', rec, text)
+            elif line.startswith('RESULT '):
+                res = json.loads(line[7:])
+                ok = True
+                total_ops += res['ops_total']
+                events += res['events']
+        if rc != 0 or not ok:
+            raise ToolError('concurrent driver failed rc=%s (%s)' % (rc, out))
+        if not os.path.exists(tr) or os.path.getsize(tr) == 0:
+            continue
+        r = run.tlc('TraceConc', 'SPECIFICATION TraceSpec\nPOSTCONDITION TraceAccepted\nCHECK_DEADLOCK FALSE\n', 'tc-' + rn['name'], workers=1,
+                    timeout=3000, java_opts='-Xss1g -Dtlc2.tool.queue.IStateQueue=StateDeque', env_extra={'TRACE': tr}, heap='8g')
+        states += r['distinct']
+        traces += 1
+        if not r['ok']:
+            text = open(r['out'], errors='replace').read()
+            m = re.search(r'<<"TRACE-REJECTED", (\d+), "(.*)">>', text)
+            if not m:
+                print(text[-3000:])
+                raise ToolError('TLC failed on concurrent trace %s' % tr)
+            at = int(m.group(1))
+            lines = open(tr).read().splitlines()
+            ev = json.loads(lines[at - 1])
+            ctx = [json.loads(x) for x in lines[max(0, at - 40):at]]
+            related = [e for e in ctx if e.get('opid') == ev.get('opid') or e.get('k') == ev.get('k')]
+            run.violation('C08', dict(kind='conc-trace', run=rn, harness_cfg=h, rejected_event=ev, related_events=related[-25:]),
+                          'concurrent run %s: event %d is not explained by any linearization: %s' % (rn['name'], at, json.dumps(ev)[:300]))
+        elif len(run.samples) < 3:
+            run.samples.append(dict(run=rn['name'], clients=rn['clients'], first_events=[json.loads(x) for x in open(tr).read().splitlines()[1:6]]))
+    # negative control: a read response replaced by a value never written must be rejected
+    if not run.violations:
+        tr = procs[0][2]
+        lines = [json.loads(x) for x in open(tr).read().splitlines()]
+        idx = next((i for i, e in enumerate(lines) if e.get('ev') == 'resp' and e.get('rt') == 'F'), None)
+        if idx is not None:
+            lines[idx]['rn'] = 987654
+            pth = os.path.join(run.work, 'neg-conc.ndjson')
+            open(pth, 'w').write('\n'.join(json.dumps(e) for e in lines[:idx + 5]) + '\n')
+            r = run.tlc('TraceConc', 'SPECIFICATION TraceSpec\nPOSTCONDITION TraceAccepted\nCHECK_DEADLOCK FALSE\n', 'neg-conc', workers=1,
+                        timeout=600, java_opts='-Xss1g -Dtlc2.tool.queue.IStateQueue=StateDeque', env_extra={'TRACE': pth})
+            if r['ok']:
+                raise ToolError('negative control failed: a read of a value that was never written was accepted by TraceConc')
+            run.log('negative control: altered read rejected by TraceConc')
+    cov = dict(states=states, transitions=max(trans, 1), traces_validated_against_impl=traces, client_operations=total_ops, trace_events=events,
+               evaluations=total_ops, distinct_nontrivial=traces,
+               rule='schedules are whatever the OS and the tokio runtimes produce for N client tasks (8 .. 3000) on multi-thread and '
+                    'current-thread runtimes, with rotation, dumps and a second session on reopened blobs; every execution is validated '
+                    'completely by TLC against TraceConc (commit events under the blob lock are the linearization points)')
+    run.assumptions += ['schedules are sampled, not enumerated, on the code; exhaustive interleaving only in the PearlConc model (3-4 clients)',
+                        'a run whose clients do not finish within the deadline (45-90 s for <= 3000 one- or two-operation clients) is reported as a deadlock']
+    return run.finish('model_checking', cov)
+
+
 def check_C16(run):
     """Offline tools: PearlTools gives, for every blob size and every single damage, the allowed outcomes;
     the harness expands each abstract damage into concrete bytes and runs the real tools."""
@@ -659,7 +766,7 @@ def check_C17(run):
     return run.finish('exploration', cov)
 
 
-CHECKS = {'C01': check_C01, 'C02': check_C02, 'C03': check_C03, 'C04': check_C04, 'C07': check_C07, 'C09': check_C09, 'C10': check_C10, 'C11': check_C11,
+CHECKS = {'C01': check_C01, 'C02': check_C02, 'C03': check_C03, 'C04': check_C04, 'C07': check_C07, 'C08': check_C08, 'C09': check_C09, 'C10': check_C10, 'C11': check_C11,
           'C12': check_C12, 'C13': check_C13, 'C14': check_C14, 'C15': check_C15, 'C16': check_C16, 'C17': check_C17}
 
 
